@@ -34,6 +34,7 @@ class Setup:
         self.seed = seed
         self.node_name = node_name          # "sym_foreign": symbolic element name constrained to be unknown
         self.both_modes = False             # run fail-fast first, then collecting, in one encoding (C04)
+        self.prefix = []                    # concrete child names placed before the symbolic ones
 
 
 def _rule_parts(rule_name):
@@ -105,11 +106,13 @@ def run(setup, max_paths=3000, budget_s=120):
         # children
         kids = []
         if setup.nsym is not None:
-            names = [it.name("n%d" % i) for i in range(setup.nsym)]
-            h["names"] = names
+            syms = [it.name("n%d" % i) for i in range(setup.nsym)]
+            h["names"] = syms
+            names = list(setup.prefix) + syms
             for i, nm in enumerate(names):
-                k = Node("?", id="c%d" % i)
-                k._name = nm
+                k = Node(nm if isinstance(nm, str) else "?", id="c%d" % i)
+                if not isinstance(nm, str):
+                    k._name = nm
                 k._parent = n
                 kids.append(k)
         else:
